@@ -18,7 +18,11 @@ theories: $(COQ)/Makefile.coq
 
 props: $(addprefix prop-,$(PROPS))
 
-prop-%: theories
+# A property's proof step builds only the closure its statement file needs, so
+# that a broken proof elsewhere does not take the other properties down.
+prop-%: $(COQ)/Makefile.coq
+	@cd $(COQ) && deps=$$(coqdep $(QFLAGS) Properties/$*.v 2>/dev/null | head -1 | tr ' ' '\n' | grep '^theories/.*\.vo$$\|^generated/.*\.vo$$' | tr '\n' ' '); \
+	  timeout 3500 $(MAKE) --no-print-directory -f Makefile.coq -j16 $$deps 2>&1 | grep -v '^Warning\|^COQDEP\|^make\[\|Nothing to be done\|is up to date' ; exit $${PIPESTATUS[0]}
 	@$(MAKE) --no-print-directory $(COQ)/Properties/$*.out
 
 $(COQ)/Properties/%.out: $(COQ)/Properties/%.v $(THEORY_V)
